@@ -400,6 +400,7 @@ func runC14(c *Ctx, tier string) {
 	c.Rule("C14-O1", "data before metadata: a commit is reached only after every writer Close / CreateVector returned nil (= C17-O2)")
 	c.Rule("C14-S1", "object order is deterministic: the lister's object sort and the load sort are stable sorts (= C06-S1 on the lake path)")
 	runLakeErrDiscipline(c, "C14-E1")
+	runLakeErrNotConverted(c, "C14-E2")
 	fn := p.Func("(*lake/commits.Store).Vacuumable")
 	if fn == nil {
 		c.Undecided("C14-V1", "(*lake/commits.Store).Vacuumable", "anchor does not resolve")
@@ -789,6 +790,7 @@ func runC17(c *Ctx, tier string) {
 	}
 	// O6: existence is not completeness
 	runLakeErrDiscipline(c, "C17-E1")
+	runLakeErrNotConverted(c, "C17-E2")
 	runSnapshotErrorNotUsed(c, "C17-S1")
 	runSnapshotEndMarker(c, "C17-S2")
 	runCommitSnapshotMarker(c, "C17-S3")
